@@ -1190,3 +1190,25 @@ def sole_arg(call):
       any(k.arg is None for k in call.keywords):
     return None
   return vals[0]
+
+
+def need(found, what, fn=None):
+  """The structure a clause is about must have been located; otherwise the clause is undecided
+  (AnalysisError), never violated: a violation is reported only for a mechanism that was found
+  and seen broken."""
+  if not found:
+    raise AnalysisError("%s%s not identified in the code as it is now written: cannot decide"
+                        % ((fn.qualname + ": ") if fn is not None else "", what))
+  return found
+
+
+def repo_callees(world, fn, call):
+  """Repo functions a call resolves to (same class / same module / imported module), or []."""
+  cg = getattr(world, "_cg_F", None)
+  if cg is None:
+    from ..callgraph import CallGraph
+    cg = world._cg_F = CallGraph(world)
+  try:
+    return list(cg.resolve(fn, call))
+  except Exception:
+    return []
